@@ -23,7 +23,8 @@ def run(ctx):
     ctx.assumptions += [
         "batch size >= 1 (batch size 0 panics in BatchCollector.Add on the first object; outside the property)",
         "one BatchedWriter life cycle (autoStartOnce: a stopped writer is never restarted); store errors (panics in the writer) are not modelled",
-        "liveness is proved as absence of stuck states plus 'a blocked call implies a live writer'; termination under a fair scheduler is not formalised (the batch timer is a free scheduler choice)",
+        "no-blocking is proved only in part: a call past its running check is never abandoned by the writer, and after the writer's exit Wait is open and nothing is queued or in flight; absence of stuck states (C08_no_block_full_statement) and termination under a fair scheduler are not proved (watchdogs in the harness observe them)",
+        "completeness is proved up to 'Stop returns only after the writer terminated with everything written committed and done and nothing queued or in flight'; that an accepted object is written with its latest content (C08_complete_full_statement) is checked per run by the Go oracle and Corr.free_ok, not proved",
         "scripted schedules are replayed at the granularity of the harness gates (Enqueue hook, flag test, writer callbacks); finer interleavings are covered by the proof only",
     ]
 
